@@ -33,7 +33,11 @@ Patches ==
   \cup {[lw_init |-> Fx(5, 4), lw_maint |-> x] : x \in {Fx(33, 32), Fx(9, 8)}}
   \cup {[risk_tier |-> 1], [risk_tier |-> 1, aw_init |-> BZero, aw_maint |-> BZero], [risk_tier |-> 0],
         [oracle_max_age |-> 5], [oracle_max_age |-> 10],
-        [aw_init |-> Fx(15, 16), aw_maint |-> Fx(7, 8)], [aw_init |-> Fx(7, 8), aw_maint |-> Fx(15, 16)], [aw_maint |-> Fx(33, 16)]}
+        [aw_init |-> Fx(15, 16), aw_maint |-> Fx(7, 8)], [aw_init |-> Fx(7, 8), aw_maint |-> Fx(15, 16)], [aw_maint |-> Fx(33, 16)],
+        \* limits travel with the weights in the same request: they have no bearing on what is a coherent configuration
+        [borrow_limit |-> BZero], [borrow_limit |-> BZero, lw_maint |-> Fx(1, 2)], [borrow_limit |-> BZero, lw_init |-> Fx(5, 4), lw_maint |-> Fx(7, 4)],
+        [borrow_limit |-> BOfInt(1000000), lw_maint |-> Fx(1, 2)], [deposit_limit |-> BZero, aw_init |-> Fx(9, 8)],
+        [borrow_limit |-> BZero, lw_init |-> Fx(17, 16), lw_maint |-> Fx(33, 32)]}
 Ent(t, i, m) == [tag |-> t, flags |-> 0, init |-> i, maint |-> m]
 EntrySets ==
   {<<>>,
@@ -56,13 +60,16 @@ Patched(b, p) ==
                               !.aw_init = IF Has2(p, "aw_init") THEN p.aw_init ELSE @,
                               !.aw_maint = IF Has2(p, "aw_maint") THEN p.aw_maint ELSE @,
                               !.risk_tier = IF Has2(p, "risk_tier") THEN p.risk_tier ELSE @,
+                              !.borrow_limit = IF Has2(p, "borrow_limit") THEN p.borrow_limit ELSE @,
+                              !.deposit_limit = IF Has2(p, "deposit_limit") THEN p.deposit_limit ELSE @,
                               !.oracle_max_age = IF Has2(p, "oracle_max_age") THEN p.oracle_max_age ELSE @]]
 WithEntries(b, slots) == [b EXCEPT !.emode = [@ EXCEPT !.entries = slots]]
 AllValid(b) == LET v == ConfigValid(b, G) IN v.weights /\ v.isolated /\ v.age /\ v.curve /\ v.emode
 
 Ev(a, r) == [ev |-> a.op, a |-> a, amt |-> BZero, res |-> IF r = "ok" THEN "ok" ELSE "err", err |-> IF r = "ok" THEN "" ELSE r]
 ObsCfg(b) == [cfg |-> [lw_init |-> b.cfg.lw_init, lw_maint |-> b.cfg.lw_maint, aw_init |-> b.cfg.aw_init, aw_maint |-> b.cfg.aw_maint,
-                       risk_tier |-> b.cfg.risk_tier, oracle_max_age |-> b.cfg.oracle_max_age]]
+                       risk_tier |-> b.cfg.risk_tier, oracle_max_age |-> b.cfg.oracle_max_age,
+                       borrow_limit |-> b.cfg.borrow_limit, deposit_limit |-> b.cfg.deposit_limit]]
 Do(a, r, post) ==
   LET e == Ev(a, r) IN
   /\ st' = post /\ depth' = depth + 1
